@@ -1934,17 +1934,17 @@ class Qube(object):
         writable copy of a readonly object.
         """
 
-        # If it is already read-only, return
-        if self._readonly_:
-            return self
-
-        # Update the value if it is an array
+        # Update the value if it is an array. An object can be flagged as
+        # read-only (e.g., as the copy made by indexing a read-only object with
+        # an array) while its own arrays are still writable.
         Qube._array_to_readonly(self._values_)
         Qube._array_to_readonly(self._mask_)
+
+        already_readonly = self._readonly_
         self._readonly_ = True
 
         # Update anything cached
-        if not Qube.DISABLE_CACHE:
+        if not already_readonly and not Qube.DISABLE_CACHE:
             for key,value in self._cache_.items():
                 if isinstance(value, Qube):
                     self._cache_[key] = value.as_readonly(recursive)
